@@ -18,18 +18,26 @@
    real graders by engine/adapters/c01.py.
 
    The property-level judgement is ResultShape!WellFormed / NoDebugLeak; TLC checks  Returned => WellFormed /\ NoDebugLeak.
-   OkRecomputed = FALSE is the pipeline as coded in the snapshot (the comparer's ok survives the multiplication by
-   the answer credit); TRUE is the design in which the result handed back by consolidate_results gets its ok
-   recomputed from its grade. *)
-EXTENDS ResultShape, TLC
+   OkRecomputed = TRUE is the pipeline as coded (consolidate_results recomputes ok from the grade of the result it
+   hands back); FALSE is the earlier, flawed design in which the comparer's ok survived the multiplication by the
+   answer credit -- kept as an exhibit: TLC must produce its counterexample (vacuity guard of the property).
+   Part "shared" adds a HISTORY: after the ListGrader call returned, one of its subgrader objects -- configured with
+   its own debug flag cd -- is called on its own; what that call returns must be well formed and must show debugging
+   output only if cd.  ParentForcesChildDebug = TRUE is the flawed design in which the debugging list leaves its
+   subgraders' debug flag switched on (second exhibit). *)
+EXTENDS ResultShape, Fixed, TLC
 
-CONSTANTS Part,            \* "item" | "single" | "interval" | "list"
+CONSTANTS Part,            \* "item" | "single" | "interval" | "list" | "shared" (a list call, then one of its
+                           \*   subgrader objects called on its own: a history of two calls)
           MaxAlts, MaxSamples, MaxCalls, Correlated,
           AnsOpts, CmpReturns,           \* palettes of the item part
           LeafAns, LeafCmp, TableGrades, \* palettes of the leaves inside list stages
           ListAns, MaxItems, Layouts,
           TableOnly,       \* layouts whose leaves are all author-defined (keeps the four-input layout small)
-          OkRecomputed
+          AttOpts,         \* attempt-credit schedule values tried ("none" = feature off)
+          OkRecomputed,    \* TRUE = the code (consolidate_results recomputes ok); FALSE = the flawed design kept as exhibit
+          ParentForcesChildDebug   \* FALSE = the code; TRUE = flawed design: a debugging ListGrader switches its
+                                   \*   subgraders' debug flag on and never back (exhibit)
 
 VARIABLES st,      \* stage (program counter)
           ch,      \* choice vector so far: sequence of <<tag, value>>
@@ -75,8 +83,13 @@ GuardOutcome(ev, guard) == IF guard = "suppress" THEN "silent"
                            ELSE IF ev = "Ea" \/ guard = "raise" THEN "raise" ELSE "message"
 AltMark == <<"A1", "A2", "A3">>
 DebugTokens == {"BANNER", "LOGCMP", "LOGATT"}
-AttVal == [c1 |-> One, c12 |-> Half, c0 |-> Zero]
+\* what the author's schedule returns for the attempt; apply_attempt_based_credit rounds it to 4 places first
+\* (built-in schedules decay to 0.0001 and then to 0; author-defined ones may return anything in [0, 1])
+AttRaw == [c1 |-> One, c12 |-> Half, c0 |-> Zero, c1e4 |-> Q(1, 10000), c7e5 |-> Q(7, 100000), c3e5 |-> Q(3, 100000),
+           c13 |-> Third]
+AttCredit(a) == LET q == AttRaw[a] IN Q(RoundHalfEven(q[1] * Unit, q[2]), Unit)
 SingleLike == Part \in {"single", "interval"}      \* an IntervalGrader is a SingleListGrader of two bounds
+ListLike == Part \in {"list", "shared"}
 \* how the bracket typed by the student fares against the author's bracket answers: it matches a full-credit answer,
 \* a half-credit answer with a message, a zero-credit answer, or none of them
 BracketOpts == {"b1", "b12", "b0", "bnone"}
@@ -171,16 +184,19 @@ MapItems(s, Op(_)) == [i \in 1..Len(s) |-> Op(s[i])]
 AnyPositive(r) == IF IsListForm(r) THEN \E i \in 1..Len(r.items) : Positive(r.items[i].g) ELSE Positive(r.g)
 
 (* ------------------------------------------------------------------ verdict of the property-level spec *)
-Form == IF Part = "list" THEN "list" ELSE "item"
-NInputs == IF Part = "list" THEN NInputsOf(cf.layout) ELSE 1
+Form == IF ListLike /\ cf.phase = 1 THEN "list" ELSE "item"
+NInputs == IF ListLike /\ cf.phase = 1 THEN NInputsOf(cf.layout) ELSE 1
+\* the debug flag the CALLED grader was configured with
+ConfiguredDebug == IF cf.phase = 2 THEN cf.cd ELSE cf.debug
 Returned == st = "returned"
 WellFormedRes == WellFormed(res, Form, NInputs, cf.pins)
-NoLeakRes == NoDebugLeak(res, cf.debug, DebugTokens)
+NoLeakRes == NoDebugLeak(res, ConfiguredDebug, DebugTokens)
 DefectOf(r, pins) == Defect(r, Form, NInputs, pins)
 
 (* ------------------------------------------------------------------ the state machine *)
 NoCf == [A |-> 1, S |-> 1, F |-> 0, corr |-> FALSE, nE |-> 1, nI |-> 1, pc |-> TRUE, la |-> "a1", layout |-> "none",
-         ipc |-> TRUE, lw |-> "?", guard |-> "?", pins |-> {}, att |-> "none", debug |-> FALSE]
+         ipc |-> TRUE, lw |-> "?", guard |-> "?", pins |-> {}, att |-> "none", debug |-> FALSE,
+         cd |-> TRUE, phase |-> 1, k |-> 0, lres |-> <<>>, res1 |-> [nores |-> TRUE], vd1 |-> "-"]
 NoRes == [nores |-> TRUE]
 NoLeaf == [kind |-> "formula", A |-> 1, S |-> 1, F |-> 0, corr |-> FALSE]
 
@@ -204,11 +220,13 @@ Start ==
         /\ \E pc \in BOOLEAN, la \in ListAns :
              /\ cf' = [cf EXCEPT !.nE = 2, !.nI = 2, !.pc = pc, !.la = la]
              /\ ch' = << <<"partial_credit", pc>>, <<"listans", la>> >>
-     \/ /\ Part = "list"
-        /\ \E layout \in Layouts, pc \in BOOLEAN, ipc \in BOOLEAN :
+     \/ /\ ListLike
+        /\ \E layout \in Layouts, pc \in BOOLEAN, ipc \in BOOLEAN, cd \in BOOLEAN :
              /\ ipc = FALSE => HasNested(layout)
-             /\ cf' = [cf EXCEPT !.layout = layout, !.pc = pc, !.ipc = ipc]
-             /\ ch' = << <<"layout", layout>>, <<"partial_credit", pc>>, <<"inner_partial_credit", ipc>> >>
+             /\ Part = "list" => cd                    \* subgraders configured with debug=True throughout
+             /\ cf' = [cf EXCEPT !.layout = layout, !.pc = pc, !.ipc = ipc, !.cd = cd]
+             /\ ch' = << <<"layout", layout>>, <<"partial_credit", pc>>, <<"inner_partial_credit", ipc>>,
+                         <<"child_debug", cd>> >>
   /\ st' = "leaf" /\ li' = 1 /\ log' = {"BANNER"}
   /\ UNCHANGED <<lf, ans, raw, sres, altres, items, grp, res, vd>>
 
@@ -220,7 +238,7 @@ LeafStart ==
         /\ st' = "alt" /\ ch' = Append(ch, <<"leaf", "formula">>)
      \/ /\ SingleLike
         /\ lf' = NoLeaf /\ st' = "alt" /\ ch' = Append(ch, <<"leaf", "formula">>)
-     \/ /\ Part = "list"
+     \/ /\ ListLike
         /\ \E kind \in {"table", "formula"} :
              /\ kind = "table" => TableGrades # {}
              /\ kind = "formula" => LeafAns # {} /\ cf.layout \notin TableOnly
@@ -284,7 +302,9 @@ Multiply ==
   /\ st' = "consol"
   \* compare_evaluations has just logged the comparison data of all samples, i.e. the standardized results with their
   \* messages (a SingleListGrader does not hand its debug log to its subgrader: nothing of the leaf is logged there)
-  /\ log' = IF SingleLike THEN log ELSE log \cup {"LOGCMP"} \cup UNION {sres[i].m : i \in 1..Len(sres)}
+  \* a subgrader of a ListGrader writes to the list's log only if its own debug flag is set
+  /\ log' = IF SingleLike \/ (ListLike /\ ~cf.cd) THEN log
+            ELSE log \cup {"LOGCMP"} \cup UNION {sres[i].m : i \in 1..Len(sres)}
   /\ UNCHANGED <<ch, cf, li, lf, ans, raw, altres, items, grp, res, vd>>
 
 ConsolidateSamples ==
@@ -318,8 +338,10 @@ Best ==
           /\ ~rel => w
           /\ rel /\ fixed => (w <=> cf.lw = "y")
           /\ ch' = IF rel /\ ~fixed THEN Append(ch, <<"wrong", w>>) ELSE ch
-          /\ cf' = IF rel /\ SingleLike THEN [cf EXCEPT !.lw = IF w THEN "y" ELSE "n"] ELSE cf
-          /\ AfterLeaf([b EXCEPT !.m = IF rel /\ w THEN {"W"} ELSE b.m, !.pos = Plan[li].pos])
+          /\ LET r == [b EXCEPT !.m = IF rel /\ w THEN {"W"} ELSE b.m, !.pos = Plan[li].pos] IN
+             /\ cf' = IF rel /\ SingleLike THEN [cf EXCEPT !.lw = IF w THEN "y" ELSE "n"]
+                      ELSE IF Part = "shared" THEN [cf EXCEPT !.lres = Append(@, r)] ELSE cf
+             /\ AfterLeaf(r)
   /\ altres' = <<>> /\ ans' = <<>>
   /\ UNCHANGED <<lf, raw, sres, log, vd>>
 
@@ -401,13 +423,14 @@ StripKeys ==
 
 AttemptCredit ==
   /\ st = "attempt"
-  /\ \E att \in {"none", "c1", "c12", "c0"} :
+  /\ \E att \in AttOpts :
        /\ ~AnyPositive(res) => att \in {"none", "c12"}        \* nothing to scale: one representative with the feature on
-       /\ cf' = [cf EXCEPT !.att = att]
-       /\ ch' = Append(ch, <<"attempt", att>>)
+       /\ cf.phase = 2 => att = "none"                       \* the shared subgrader has no schedule of its own
+       /\ cf' = IF cf.phase = 2 THEN cf ELSE [cf EXCEPT !.att = att]
+       /\ ch' = IF cf.phase = 2 THEN ch ELSE Append(ch, <<"attempt", att>>)
        /\ log' = IF att = "none" THEN log ELSE log \cup {"LOGATT"}
-       /\ IF att = "none" \/ att = "c1" THEN res' = res
-          ELSE LET scale(r) == AttemptEntry(r, AttVal[att])
+       /\ IF att = "none" \/ Eq(AttCredit(att), One) THEN res' = res
+          ELSE LET scale(r) == AttemptEntry(r, AttCredit(att))
                    changed == AnyPositive(res)
                IN IF IsListForm(res)
                   THEN res' = [res EXCEPT !.items = MapItems(@, scale), !.overall = IF changed THEN @ \cup {"ATT"} ELSE @]
@@ -415,12 +438,16 @@ AttemptCredit ==
   /\ st' = "debug"
   /\ UNCHANGED <<li, lf, ans, raw, sres, altres, items, grp, vd>>
 
+\* the debug flag the called object carries at this moment
+EffectiveDebug(d) == IF cf.phase = 2 THEN cf.cd \/ (ParentForcesChildDebug /\ cf.debug) ELSE d
+
 DebugAppend ==
   /\ st = "debug"
   /\ \E d \in BOOLEAN :
-       /\ cf' = [cf EXCEPT !.debug = d]
-       /\ ch' = Append(ch, <<"debug", d>>)
-       /\ res' = IF ~d THEN res
+       /\ cf.phase = 2 => d = cf.cd                          \* configured when the object was built, before call 1
+       /\ cf' = IF cf.phase = 2 THEN cf ELSE [cf EXCEPT !.debug = d]
+       /\ ch' = IF cf.phase = 2 THEN ch ELSE Append(ch, <<"debug", d>>)
+       /\ res' = IF ~EffectiveDebug(d) THEN res
                  ELSE IF IsListForm(res) THEN [res EXCEPT !.overall = @ \cup log] ELSE [res EXCEPT !.m = @ \cup log]
   /\ st' = "format"
   /\ UNCHANGED <<li, lf, ans, raw, sres, altres, items, grp, log, vd>>
@@ -432,11 +459,24 @@ FormatMessages ==
   /\ vd' = DefectOf(res, cf.pins)
   /\ UNCHANGED <<ch, cf, li, lf, ans, raw, sres, altres, items, grp, res, log>>
 
-Done == st \in {"returned", "raised"} /\ UNCHANGED vars
+(* ---- history: the ListGrader call has returned; one of its subgrader objects is now called on its own with the
+   input it graded inside the list.  ItemGrader.check yields the same best result again (same answers, same scripted
+   comparer); a new debug log is started; then the tail of __call__ runs with the subgrader's own configuration *)
+FollowUp ==
+  /\ st = "returned" /\ Part = "shared" /\ cf.phase = 1
+  /\ \E k \in 1..Len(cf.lres) :
+       /\ cf' = [cf EXCEPT !.phase = 2, !.k = k, !.res1 = res, !.vd1 = vd]
+       /\ ch' = Append(ch, <<"alone", k>>)
+       /\ res' = cf.lres[k]
+  /\ st' = "strip" /\ vd' = "-" /\ log' = {"BANNER", "LOGCMP"}
+  /\ UNCHANGED <<li, lf, ans, raw, sres, altres, items, grp>>
+
+Finished == st = "raised" \/ (st = "returned" /\ ~(Part = "shared" /\ cf.phase = 1))
+Done == Finished /\ UNCHANGED vars
 
 Next == \/ Start \/ LeafStart \/ TableReturn \/ NextAlt \/ Compare \/ MatrixGuard \/ Standardize \/ Multiply \/ ConsolidateSamples
         \/ Best \/ Pad \/ Brackets \/ SingleConsolidate \/ SingleAward \/ OuterBest \/ NestedCheck \/ UngroupStage
-        \/ ZeroIfImperfect \/ StripKeys \/ AttemptCredit \/ DebugAppend \/ FormatMessages \/ Done
+        \/ ZeroIfImperfect \/ StripKeys \/ AttemptCredit \/ DebugAppend \/ FormatMessages \/ FollowUp \/ Done
 Spec == Init /\ [][Next]_vars /\ WF_vars(Next)
 
 (* ------------------------------------------------------------------ what TLC checks *)
@@ -470,17 +510,24 @@ InvStaleOk == \A r \in LiveItems \ SeqItems(sres) :
 InvStripped == st \in {"attempt", "debug", "format", "returned"} => \A r \in ItemsIn(res) : r.keys = ItemKeys
 \* debugging output enters a message in the DebugAppend stage only
 InvDebugOnlyAtAppend == st \notin {"format", "returned"} => \A r \in LiveItems : r.m \cap DebugTokens = {}
-InvDebugShown == Returned /\ cf.debug => "BANNER" \in AllMarkers(res)
+InvDebugShown == Returned /\ ConfiguredDebug => "BANNER" \in AllMarkers(res)
 \* list results: one entry per input, in input order, from the un-grouping stage onwards
-InvListOrder == Part = "list" /\ st \in {"zero", "strip", "attempt", "debug", "format", "returned"} =>
+InvListOrder == ListLike /\ cf.phase = 1 /\ st \in {"zero", "strip", "attempt", "debug", "format", "returned"} =>
                   /\ Len(res.items) = NInputs
                   /\ \A i \in 1..NInputs : res.items[i].pos = i
 \* partial_credit=False: all entries perfect, or all of them zero, before attempt credit is applied
-InvAllOrNothing == Part = "list" /\ st \in {"strip", "attempt"} /\ ~cf.pc =>
+InvAllOrNothing == ListLike /\ cf.phase = 1 /\ st \in {"strip", "attempt"} /\ ~cf.pc =>
                      AllPerfect(res.items) \/ \A i \in 1..Len(res.items) : IsZero(res.items[i].g)
 InvStage == st \in Stages
 \* a call that raises returns nothing: no verdict is ever formed for it
 InvRaisedNoVerdict == st = "raised" => vd = "-"
 \* the pipeline terminates: every behaviour reaches "returned" or "raised"  (checked with SPECIFICATION Spec)
-Terminates == <>(st \in {"returned", "raised"})
+Terminates == <>Finished
+\* the subgrader called on its own returns what it contributed inside the list, before the list's own zeroing and
+\* attempt scaling (a verdict depends on configuration and call only)
+InvAloneSameAsInList == Returned /\ cf.phase = 2 =>
+    /\ res.ok = cf.lres[cf.k].ok /\ res.g = cf.lres[cf.k].g
+    /\ res.m \ DebugTokens = cf.lres[cf.k].m
+\* a configuration is not changed by grading: the shared subgrader shows debugging output iff it was configured to
+InvChildDebugAsConfigured == Returned /\ cf.phase = 2 => (("BANNER" \in res.m) <=> cf.cd)
 =============================================================================
